@@ -174,7 +174,16 @@ def cfg_simplifications(cfg):
     for frac in (0.25, 0.5, 0.75):
         k = int(n * frac)
         if k >= 10:
-            yield mod(end=(s + dt.timedelta(days=k)).strftime("%Y/%m/%d"))
+            c = mod(end=(s + dt.timedelta(days=k)).strftime("%Y/%m/%d"))
+            gw = c.get("gw")
+            if gw and len(gw["dates"]) > 1 and gw.get("method") == "Variable":
+                # keep the input sound: interpolated observations must lie inside the (shorter) window
+                new_end = s + dt.timedelta(days=k)
+                keep = [i for i, d_ in enumerate(gw["dates"]) if dt.datetime.strptime(d_, "%Y/%m/%d").date() <= new_end]
+                if len(keep) < 1:
+                    continue
+                c["gw"] = dict(gw, dates=[gw["dates"][i] for i in keep], values=[gw["values"][i] for i in keep])
+            yield c
 
 
 def weather_at(cfg, dates):
